@@ -167,6 +167,18 @@ def c06_definition(entry, name, fields):
     return out
 
 
+def c06_dup_fields():
+    from flow.record import RecordDescriptor
+
+    try:
+        D = RecordDescriptor("c06/dup", [("string", "a"), ("varint", "a"), ("string", "b")])
+    except Exception as e:
+        return {"violates": False, "outcome": f"rejected: {type(e).__name__}"}
+    slots = [s for s in D.recordType.__slots__ if s not in RESERVED]
+    declared = [n for _, n in D.get_field_tuples()]
+    return {"violates": slots != declared, "detail": f"accepted; the record has the fields {slots}, the descriptor declares {declared}" if slots != declared else None}
+
+
 def c06_nofields(entry, name):
     """a descriptor frame / JSON descriptor line whose field list is nil / null"""
     from flow.record.jsonpacker import JsonRecordPacker
@@ -252,4 +264,4 @@ def c06_hostile(seed, n):
     return {"violates": False, "cases": cases}
 
 
-CALLS = {"c06_nofields": c06_nofields, "c06_history": c06_history, "c06_eval": c06_eval, "c06_field_name": c06_field_name, "c06_fieldtype": c06_fieldtype, "c06_definition": c06_definition, "c06_definition_literal": c06_definition_literal, "c06_hostile": c06_hostile}
+CALLS = {"c06_dup_fields": c06_dup_fields, "c06_nofields": c06_nofields, "c06_history": c06_history, "c06_eval": c06_eval, "c06_field_name": c06_field_name, "c06_fieldtype": c06_fieldtype, "c06_definition": c06_definition, "c06_definition_literal": c06_definition_literal, "c06_hostile": c06_hostile}
